@@ -42,6 +42,11 @@ func RunWorker(prop string, seed uint64, worker, cases int, scratch, out string,
 		os.Remove(jpath)
 		return res.WriteFile(out)
 	}
+	if prop == "C14" && worker == 1 {
+		// one worker starts with the twin comparison of answers and engine verdicts
+		runStatusAgreement(res, seed, scratch, j, worker)
+		res.WriteFile(out)
+	}
 	nworkers := 16
 	fmt.Sscanf(extra["workers"], "%d", &nworkers)
 	full := extra["tier"] == "thorough"
